@@ -385,6 +385,11 @@ class BuiltinMixin:
 
     def bi_getattr(self, node, st, fr):
         obj = self.ev(node.args[0], st, fr)
+        if not isinstance(node.args[1], ast.Constant):
+            # getattr(x, <computed name>): an opaque lookup, a function of the object and the name
+            nm = self.ev(node.args[1], st, fr)
+            f = self.voc.fn("getattr_dyn", self.voc.Val, self.voc.Val, self.voc.Val)
+            return SV(f(self.box(obj), self.box(nm)), "any")
         name = ast.literal_eval(node.args[1])
         if obj.pt == "tlocal" and len(node.args) == 3:
             return self.tl_get(obj, name, st, fr, self.box(self.ev(node.args[2], st, fr)))
@@ -437,7 +442,7 @@ class BuiltinMixin:
     # ------------------------------------------------------------------ spec-only functions (contract language)
     SPEC_ONLY = {"card", "implies", "iff", "forall", "exists", "subset", "set_eq", "old", "is_class", "keys_of",
                  "ty_is", "same_class", "unchanged", "fresh_obj", "no_effects", "effects", "attr", "sel", "tuple2", "sval", "ival",
-                 "local", "ext", "box_bool", "tl_get", "raw_tq_ok", "is_blank", "attr_of", "eq_str", "mro_of", "as_dict", "as_list", "as_set", "seq_len", "dict_len", "truthy", "dict_get", "pyeval_str", "at", "is_none"}
+                 "local", "distinct", "cls_name", "clsattr", "written_text", "opened_path", "ext", "box_bool", "tl_get", "raw_tq_ok", "is_blank", "attr_of", "eq_str", "mro_of", "as_dict", "as_list", "as_set", "seq_len", "dict_len", "truthy", "dict_get", "pyeval_str", "at", "is_none"}
     SPEC_CONSTS = {}
 
     def bi_card(self, node, st, fr):
@@ -694,3 +699,32 @@ class BuiltinMixin:
 
     def bi_box_bool(self, node, st, fr):
         return SV(self.voc.B2V(self.evb(node.args[0], st, fr)), "any")
+
+    def bi_written_text(self, node, st, fr):
+        env = getattr(fr, "exit_env", None) or st.env
+        if "$written" not in env:
+            return SV(z3.StringVal("<nothing written>"), "str")
+        return env["$written"]
+
+    def bi_opened_path(self, node, st, fr):
+        env = getattr(fr, "exit_env", None) or st.env
+        if "$opened" not in env:
+            return SV(self.voc.NONE, "none")
+        return env["$opened"]
+
+    def bi_tuple2(self, node, st, fr):
+        v = self.voc
+        a, b = self.box(self.ev(node.args[0], st, fr)), self.box(self.ev(node.args[1], st, fr))
+        return SV(v.sapp(v.sapp(v.tnil, a), b), "tuple")
+
+    def bi_cls_name(self, node, st, fr):
+        x = self.ev(node.args[0], st, fr)
+        return self.class_attr(SV(self.box(x), "class"), "__name__", st, fr, node)
+
+    def bi_clsattr(self, node, st, fr):
+        x = self.ev(node.args[0], st, fr)
+        return self.class_attr(SV(self.box(x), "class"), ast.literal_eval(node.args[1]), st, fr, node)
+
+    def bi_distinct(self, node, st, fr):
+        x = self.ev(node.args[0], st, fr)
+        return SV(self.voc.distinct(self.as_seq(x, st, fr, node).t), "bool")
